@@ -6,7 +6,8 @@ RULE = ("valid codings: 0..3 chunks (quick: sizes from {1,2,3,15,16,255,256,4095
         "small scope: every coding with <=3 chunks of sizes 1..3 x extension y/n x 0..2 trailers x leading zero y/n), "
         "upper/lower hex, leading zeros, optional BWS and extension, payload with CR/LF bytes; always followed by the bytes of a "
         "next response. Schedules: all-at-once, every single cut, all 1-byte arrivals, random cut sets; output sizes {0,1,2,3,4,"
-        "large,random}; stop_on_chunk_boundary on/off/toggled; extra reads after the end. Size lines longer than 20 bytes are "
+        "large,random}; stop_on_chunk_boundary on/off/toggled; extra reads after the end; exact-fill schedules (output buffers exactly the "
+        "chunk sizes, then only empty output buffers: the rest of the coding must still be consumed). Size lines longer than 20 bytes are "
         "generated too (known finding class size-line-over-20). non-trivial = RecvBody reached, coding fully consumed and >= 1 "
         "payload byte delivered (or empty payload handled); distinct = distinct op lists")
 TRUSTED_BASE = COMMON_TRUSTED_BASE
@@ -94,6 +95,29 @@ def build(sizes, rng, ext, trailers, upper, zeros, bws, kind, caps, stop):
     return {"ops": ops, "meta": {"coding": len(coding), "datas": [d.hex() for d in datas], "maxline": maxline, "head": len(HEAD)}}
 
 
+def build_exact_fill(sizes, rng, ext, trailers, upper, zeros, bws, stop, onebyte):
+    """The caller's buffers are exactly as large as the chunk data (e.g. it reads into the rest of a buffer sized to the payload): once
+    all data is delivered, reads with an EMPTY output buffer must still consume the rest of the coding (chunk CRLF, last-chunk, trailers,
+    final CRLF) and report the end."""
+    coding, datas, maxline = make_coding(sizes, rng, ext, trailers, upper, zeros, bws)
+    stream = HEAD + coding + NEXT
+    ops = [op_new("GET"), "proceed", "write_head #4096", "proceed", "stream %s" % hx(stream), "arrive %s" % num(len(HEAD)),
+           "try_response", "proceed", "q_body_mode"]
+    if stop:
+        ops.append("stop #1")
+    ops.append("arrive %s" % num(len(coding) + len(NEXT)))
+    if onebyte:
+        ops += ["read #1"] * sum(sizes)
+    else:
+        ops += ["read %s" % num(n) for n in sizes]
+    ops += ["read #0"] * (2 * len(sizes) + len(trailers) + 5)
+    ops += ["q_can_proceed"]
+    must = len(ops) - 1
+    ops += ["read #100000", "q_can_proceed", "q_boundary", "proceed", "q_must_close"]
+    _stats["exact_fill"] = _stats.get("exact_fill", 0) + 1
+    return {"ops": ops, "meta": {"coding": len(coding), "datas": [d.hex() for d in datas], "maxline": maxline, "head": len(HEAD), "must_be_done_at": must}}
+
+
 SIZES = [1, 2, 3, 15, 16, 255, 256, 4095, 4096]
 CAPSETS = [[0, 1, 2, 3, 4, 100000], [1], [2], [3], [4], [100000], [0, 100000], [1, 2, 3, 100000, 100000]]
 
@@ -141,6 +165,18 @@ def gen_small_scope(rng, fraction):
     return out
 
 
+def gen_exact_fill(rng, count):
+    out = []
+    for k in range(count):
+        nch = rng.choice([0, 1, 1, 2, 3])
+        sizes = [rng.choice([1, 2, 3, 15, 16, 255]) for _ in range(nch)]
+        ext = rng.choice([None, None, b";e"])
+        trailers = [b"T: v"] * rng.choice([0, 0, 1, 2])
+        out.append(build_exact_fill(sizes, rng, ext, trailers, rng.random() < 0.3, rng.choice([0, 0, 1]), b"", False,
+                                    sum(sizes) <= 20 and rng.random() < 0.4))
+    return out
+
+
 def generate(rng, tier, mult):
     if tier == "thorough":
         out = gen_small_scope(rng, 0.25)
@@ -155,6 +191,7 @@ def generate(rng, tier, mult):
     else:
         out = gen_small_scope(rng, 0.004 * mult)
         out += [gen_random(rng) for _ in range(900 * mult)]
+    out += gen_exact_fill(rng, (400 if tier == "thorough" else 60) * mult)
     return out
 
 
@@ -245,6 +282,13 @@ def oracle(script, obs):
         elif p[0] == "q_can_proceed" and in_body:
             ended = (o == "true")
             done = (consumed == meta["head"] + meta["coding"])
+            if i == meta.get("must_be_done_at") and not ended:
+                if delivered == payload_all:
+                    fails.append("op %d: the whole coding was offered and all chunk data delivered into buffers of exactly the chunk sizes, but reads "
+                                 "with an empty output buffer do not consume the rest of the coding (%d of %d consumed, not ended)" % (
+                                     i, consumed - meta["head"], meta["coding"]))
+                    break
+                # (data not yet delivered: a different read granularity; nothing to say)
             if ended != done:
                 fails.append("op %d: ended=%s but consumed %d of %d coding bytes" % (i, ended, consumed - meta["head"], meta["coding"]))
                 break
